@@ -612,3 +612,160 @@ func reverseStr(in []string) []string {
 	}
 	return out
 }
+
+// ---------------------------------------------------------------- X9  (ers.Stack and the errors package protocol)
+
+func ruleX9(c *Ctx) {
+	R := c.R
+	p := c.P
+	R.Rule("X9", "ers.Stack speaks the errors package's protocol: Is/As delegate to errors.Is/As with the head's error first and the argument second, Unwrap hands out the next node (nil at the end), and Resolve answers nil for count 0, the single error itself for count 1, the stack otherwise", 4)
+	deleg := func(name, stdfn string) {
+		f := p.FuncNamed("ers.(*Stack)." + name)
+		at := "ers.(*Stack)." + name + "/delegates"
+		if f == nil {
+			R.Fail("X9", at, "-", "method not found: errors."+name+" on a joined error no longer sees the constituents")
+			return
+		}
+		info := f.Info()
+		recv := recvObject(f)
+		arg := paramObj(f, 0)
+		ok := false
+		walkNoLit(f.Body, func(x ast.Node) bool {
+			rs, isRet := x.(*ast.ReturnStmt)
+			if !isRet || len(rs.Results) != 1 {
+				return true
+			}
+			call, isCall := ast.Unparen(rs.Results[0]).(*ast.CallExpr)
+			if !isCall || callName(info, call) != stdfn || len(call.Args) != 2 {
+				return true
+			}
+			se, isSel := ast.Unparen(call.Args[0]).(*ast.SelectorExpr)
+			id2, isId := ast.Unparen(call.Args[1]).(*ast.Ident)
+			if isSel && isId && se.Sel.Name == "err" {
+				if rid, ok2 := ast.Unparen(se.X).(*ast.Ident); ok2 && info.Uses[rid] == recv && info.Uses[id2] == arg {
+					ok = true
+				}
+			}
+			return true
+		})
+		R.Check(ok, "X9", at, p.Position(f.Pos()), "return "+stdfn+"(e.err, arg)", fmt.Sprintf("Stack.%s does not return %s(e.err, <argument>): errors.%s on an aggregate no longer succeeds for a constituent that is itself wrapped (or succeeds for unrelated targets)", name, stdfn, name))
+	}
+	deleg("Is", "errors.Is")
+	deleg("As", "errors.As")
+	// Unwrap
+	if f := p.FuncNamed("ers.(*Stack).Unwrap"); f != nil {
+		info := f.Info()
+		recv := recvObject(f)
+		next, nilRet := false, false
+		walkNoLit(f.Body, func(x ast.Node) bool {
+			rs, isRet := x.(*ast.ReturnStmt)
+			if !isRet || len(rs.Results) != 1 {
+				return true
+			}
+			if isNilIdent(info, rs.Results[0]) {
+				nilRet = true
+			}
+			if se, ok := ast.Unparen(rs.Results[0]).(*ast.SelectorExpr); ok && se.Sel.Name == "next" {
+				if rid, ok := ast.Unparen(se.X).(*ast.Ident); ok && info.Uses[rid] == recv {
+					next = true
+				}
+			}
+			return true
+		})
+		R.Check(next && nilRet, "X9", "ers.(*Stack).Unwrap/next", p.Position(f.Pos()), "returns e.next, or nil at the end", "Stack.Unwrap does not walk to the next node (or never ends): errors.Is/As stop at the newest constituent")
+	} else {
+		R.Fail("X9", "ers.(*Stack).Unwrap/next", "-", "method not found")
+	}
+	// Resolve
+	if f := p.FuncNamed("ers.(*Stack).Resolve"); f != nil {
+		info := f.Info()
+		recv := recvObject(f)
+		type arm struct{ cond, ret string }
+		var arms []arm
+		ast.Inspect(f.Body, func(x ast.Node) bool {
+			cc, ok := x.(*ast.CaseClause)
+			if !ok {
+				return true
+			}
+			cond := "default"
+			if len(cc.List) > 0 {
+				cond = exprStr(cc.List[0])
+			}
+			ret := "?"
+			for _, s := range cc.Body {
+				if rs, ok := s.(*ast.ReturnStmt); ok && len(rs.Results) == 1 {
+					r := ast.Unparen(rs.Results[0])
+					switch {
+					case isNilIdent(info, r):
+						ret = "nil"
+					default:
+						if se, ok := r.(*ast.SelectorExpr); ok && se.Sel.Name == "err" {
+							ret = "err"
+						} else if id, ok := r.(*ast.Ident); ok && info.Uses[id] == recv {
+							ret = "stack"
+						}
+					}
+				}
+			}
+			arms = append(arms, arm{cond, ret})
+			return true
+		})
+		good := len(arms) == 3
+		why := ""
+		for _, a := range arms {
+			switch a.ret {
+			case "nil":
+				if !strings.Contains(a.cond, "count == 0") {
+					good, why = false, "nil is returned under `"+a.cond+"`"
+				}
+			case "err":
+				if !strings.HasSuffix(a.cond, "count == 1") {
+					good, why = false, "the single error is returned under `"+a.cond+"`"
+				}
+			case "stack":
+				if a.cond != "default" {
+					good, why = false, "the stack itself is returned under `"+a.cond+"`"
+				}
+			default:
+				good, why = false, "an arm returns something else"
+			}
+		}
+		R.Check(good, "X9", "ers.(*Stack).Resolve/table", p.Position(f.Pos()), "count 0 → nil, count 1 → the error itself, otherwise the stack", "Stack.Resolve's decision table changed ("+why+"): Join of a single plain error must return that error itself, and nil exactly when nothing was added")
+	} else {
+		R.Fail("X9", "ers.(*Stack).Resolve/table", "-", "method not found")
+	}
+}
+
+// ---------------------------------------------------------------- P6
+
+func ruleP6(c *Ctx, pkgs map[string]bool) {
+	R := c.R
+	p := c.P
+	R.Rule("P6", "the library's own pipeline constructs never put a pipe into non-blocking mode (NonBlocking / NonBlockingSend / NonBlockingReceive are for callers): a non-blocking hand-off drops the item whenever the other side is not ready", 0)
+	n := 0
+	for _, f := range p.Funcs {
+		if !pkgs[shortPkg(f.Pkg.PkgPath)] {
+			continue
+		}
+		root := f.Root().Name
+		if strings.HasPrefix(root, "fun.ChanOp.") || strings.HasPrefix(root, "fun.ChanSend.") || strings.HasPrefix(root, "fun.ChanReceive.") || root == "fun.NonBlocking" || root == "fun.NonBlockingSend" || root == "fun.NonBlockingReceive" {
+			continue // the channel wrapper's own API
+		}
+		info := f.Info()
+		walkNoLit(f.Body, func(x ast.Node) bool {
+			call, ok := x.(*ast.CallExpr)
+			if !ok {
+				return true
+			}
+			switch cn := callName(info, call); cn {
+			case "fun.NonBlocking", "fun.NonBlockingSend", "fun.NonBlockingReceive", "fun.ChanOp.NonBlocking":
+				n++
+				R.Fail("P6", fmt.Sprintf("%s/%s#%d", f.Name, cn, n), p.Position(call.Pos()), fmt.Sprintf("%s builds a non-blocking pipe (%s): an item sent while the consumer is busy is dropped without an error", f.Name, cn))
+			}
+			return true
+		})
+	}
+	if n == 0 {
+		R.OK("P6", "pipeline-packages/no-nonblocking-pipe", "-", "no non-blocking pipe is built outside the channel wrapper's own API")
+	}
+}
